@@ -26,6 +26,7 @@ type fnSpecState struct {
 	reqs    []Term
 	headSt  map[*loopInfo]*State
 	invs    map[*loopInfo][]*boundClause
+	bodies  map[*loopInfo][]*boundClause
 	flagMap map[*eCall]int
 }
 
@@ -134,6 +135,7 @@ func (c *FnCtx) bindClause(cl *clause, env *evalEnv, prefix string) *boundClause
 		}
 		fl := &Flag{id: len(c.flags)}
 		fl.callee = exprText(call.args[0])
+		fl.iter = c.bindIter
 		if id.name == "retof" {
 			fl.ret = true
 			f := c.L.findFunc(c.fn.Pkg.Pkg.Path(), fl.callee)
@@ -151,6 +153,13 @@ func (c *FnCtx) bindClause(cl *clause, env *evalEnv, prefix string) *boundClause
 				fl.argV = append(fl.argV, nil)
 				continue
 			}
+			if fl.iter != nil {
+				// iteration-local event: the pattern is evaluated when a matching call executes
+				fl.args = append(fl.args, a)
+				fl.argT = append(fl.argT, "lazy:"+exprTextFull(a))
+				fl.argV = append(fl.argV, nil)
+				continue
+			}
 			v, err := c.evalSpec(a, &n)
 			if err != nil {
 				ferr = err
@@ -165,7 +174,7 @@ func (c *FnCtx) bindClause(cl *clause, env *evalEnv, prefix string) *boundClause
 		key := fmt.Sprint(fl.ret) + fl.callee + "(" + strings.Join(fl.argT, " , ") + ")"
 		shared := false
 		for _, o := range c.flags {
-			if fmt.Sprint(o.ret)+o.callee+"("+strings.Join(o.argT, " , ")+")" == key {
+			if o.iter == fl.iter && fmt.Sprint(o.ret)+o.callee+"("+strings.Join(o.argT, " , ")+")" == key {
 				fl = o
 				shared = true
 				break
@@ -305,6 +314,7 @@ func (c *FnCtx) setupSpec(st0 *State) {
 		}
 		if ex := c.spec.loops[li.ordinal]; ex != nil && ex != ls {
 			ex.exits = append(ex.exits, ls.exits...)
+			ex.bodies = append(ex.bodies, ls.bodies...)
 			ex.invariants = append(ex.invariants, ls.invariants...)
 			if ls.decreases != nil {
 				ex.decreases = ls.decreases
@@ -331,6 +341,41 @@ func (c *FnCtx) setupSpec(st0 *State) {
 			}
 			s.invs[li] = append(s.invs[li], bc)
 		}
+		for i, bd := range ls.bodies {
+			c.bindIter = li
+			bc := c.bindClause(bd, env, "body")
+			c.bindIter = nil
+			if bc == nil {
+				continue
+			}
+			bc.name = bd.label
+			if bc.name == "" {
+				bc.name = fmt.Sprintf("loop%d.body%d", li.ordinal, i+1)
+			}
+			if s.bodies == nil {
+				s.bodies = map[*loopInfo][]*boundClause{}
+			}
+			s.bodies[li] = append(s.bodies[li], bc)
+		}
+	}
+}
+
+// loopBodies checks the `loop L body` clauses at a back edge of li: they speak about
+// the iteration that just ended (events are reset at the loop head).
+func (c *FnCtx) loopBodies(li *loopInfo, st *State, cond Term, from *ssa.BasicBlock) {
+	if c.spec == nil || c.dry {
+		return
+	}
+	c.curLoop = li
+	defer func() { c.curLoop = nil }()
+	for _, bc := range c.ss().bodies[li] {
+		env := c.clauseEnv(bc, st, nil)
+		t, err := c.evalBool(bc.body, env)
+		if err != nil {
+			c.specErr(bc.cl, err)
+			continue
+		}
+		c.emit(&Obligation{Uses: bc.cl.uses, Name: fmt.Sprintf("%s.%s", c.spec.oname(), bc.name), Kind: "loop-body", Clause: bc.cl.src, Where: fmt.Sprintf("iteration of loop %d ending at b%d", li.ordinal, from.Index), Hyp: cond, Goal: t})
 	}
 }
 
@@ -433,18 +478,54 @@ func (c *FnCtx) cand(li *loopInfo, desc string) *candidate {
 }
 
 func (c *FnCtx) autoCandidates(li *loopInfo, st *State, cond Term, mode string) {
-	if li.rangeIx == nil {
-		return
-	}
-	phi := c.regs[li.rangeIx]
-	if phi == nil {
-		return
-	}
 	type cnd struct {
 		desc string
 		t    Term
 	}
 	var cs []cnd
+	// iteration-local events of an enclosing loop: candidate "this inner loop does not
+	// raise the event" (kept only if every back edge proves it)
+	for _, f := range c.flags {
+		if f.iter == nil || f.iter == li || f.ret || !f.iter.blocks[li.header] || !c.flagTouchedIn(f, li) {
+			continue
+		}
+		ent, ok := c.iterEntFlag[li][f.id]
+		if !ok {
+			continue
+		}
+		allWild := true
+		for _, a := range f.argT {
+			if a != "" {
+				allWild = false
+			}
+		}
+		if allWild {
+			continue // any matching call in the loop raises it: not worth a candidate
+		}
+		now := st.flags[f.id]
+		if now == "" {
+			now = "false"
+		}
+		cs = append(cs, cnd{fmt.Sprintf("iterflag%d-not-raised", f.id), implies(now, ent)})
+	}
+	emitCands := func() {
+		for _, c2 := range cs {
+			cd := c.cand(li, c2.desc)
+			switch {
+			case mode == "assume":
+				c.assume(implies(cd.en, implies(cond, c2.t)))
+			case mode == "entry":
+				cd.entry = implies(cond, c2.t)
+			default:
+				cd.back = append(cd.back, implies(cond, c2.t))
+			}
+		}
+	}
+	if li.rangeIx == nil || c.regs[li.rangeIx] == nil {
+		emitCands()
+		return
+	}
+	phi := c.regs[li.rangeIx]
 	cs = append(cs, cnd{"rangeidx>=-1", app("<=", "(- 1)", phi.S)})
 	if li.rangeLn != nil {
 		if lv, ok := c.regs[li.rangeLn]; ok {
@@ -492,17 +573,7 @@ func (c *FnCtx) autoCandidates(li *loopInfo, st *State, cond Term, mode string) 
 		}
 	}
 	addFlagCands(s.ens)
-	for _, c2 := range cs {
-		cd := c.cand(li, c2.desc)
-		switch {
-		case mode == "assume":
-			c.assume(implies(cd.en, implies(cond, c2.t)))
-		case mode == "entry":
-			cd.entry = implies(cond, c2.t)
-		default:
-			cd.back = append(cd.back, implies(cond, c2.t))
-		}
-	}
+	emitCands()
 }
 
 func (c *FnCtx) loopDecreases(li *loopInfo, st *State, cond Term, head, back map[*ssa.Phi]*Val, from *ssa.BasicBlock) {
